@@ -141,6 +141,7 @@ impl ProverKey {
         ),
         z_eval: &BlsScalar,
         z_poly: &Polynomial,
+        domain: &EvaluationDomain,
     ) -> Polynomial {
         let a = self.compute_linearizer_identity_range_check(
             (a_eval, b_eval, c_eval, d_eval),
@@ -158,10 +159,8 @@ impl ProverKey {
             &self.s_sigma_4.0,
         );
 
-        // the poly is increased by 2 after blinding it
-        let domain = EvaluationDomain::new(z_poly.degree() - 2).unwrap();
         let c = self.compute_linearizer_check_is_one(
-            &domain,
+            domain,
             z_challenge,
             &alpha.square(),
             z_poly,
